@@ -42,6 +42,16 @@ CHECKS = {
           "Generated search: thousands of heartbeat command streams and egress histories per run (pure, deterministic), hundreds of millisecond-scale timelines with ambiguous brackets skipped and counted, and a dozen stack scenarios with generous real-time bounds.",
           "Real clock for the timed parts (engine stamps activity with Instant::now()); stack bounds: PING within [ivl-25ms, 2*ivl+250ms] of the last activity, dead peer closed no earlier than the timeout; known finding: PING/PONG bypass the record layer on CURVE/NOISE_XX; io_uring backend's missing heartbeat clock belongs to C20.",
           "DESIGN.md §2 C19"),
+  "C12": ("exploration",
+          "model-based property testing (proptest): subscribe/unsubscribe/matches histories against a multiset model of the trie; PUB->SUB end-to-end phases with marker-delimited quiescent windows and a reference subscription set per subscriber; stalled / reset subscriber scenario with a publisher-latency oracle",
+          "Generated search: tens of thousands of trie histories per run checked step by step against an independent model; dozens of end-to-end cases over tcp/ipc/inproc and both runtimes with exact expected delivery per phase; a few stalled-subscriber runs.",
+          "Subscription changes are only made in quiescent windows (otherwise 'when the message reaches it' is ambiguous); known finding: PUB blocks on a subscriber at HWM.",
+          "DESIGN.md §2 C12"),
+  "C17": ("fault_enumeration",
+          "property-based fault injection (proptest): generated fault sequences from raw peers (garbage per phase, wrong mechanism, incompatible type, data-phase violations, RST, half-close, connect bursts) against a socket with a healthy peer; refused inproc connects; reconnect attempts timed at a raw listener that accepts and closes; exhaustive-style arithmetic check of the back-off rule",
+          "Fault sequences on some connections while numbered healthy traffic must continue after every fault, a fresh peer must still get in, and no task may panic; the back-off rule (d0 = ivl, geometric growth at most, cap, reset) is checked on 20 000 parameter triples and observed on the wire.",
+          "Timing bounds allow for the session's 1 s minimum lifespan; the OS schedule is sampled, not owned.",
+          "DESIGN.md §2 C17"),
 }
 
 NOT_YET = {
